@@ -51,6 +51,7 @@ def harness_scen(sc, via="direct", share=None):
     obj = {"kind": "histogram", "bounds": sc["bounds"], "via": via}
     if share:
         obj["share"] = share
+        obj["creator"] = sc["threads"][0]
     if "shift" in sc:
         obj["shift"] = sc["shift"]       # all values and bounds shifted down: stored sums are negative, reported sums shifted back
     return {"obj": obj, "threads": sc["threads"], "scripts": sc["scripts"], "budget": sc.get("budget", 4000)}
